@@ -105,10 +105,10 @@ def build_lib(variant="hooks", targets=("xerces-c",)):
             if "fsanitize" in flags:
                 cmd += ["-DCMAKE_SHARED_LINKER_FLAGS=-fsanitize=address,undefined",
                         "-DCMAKE_EXE_LINKER_FLAGS=-fsanitize=address,undefined"]
-            rc, out = run(cmd, timeout=600)
+            rc, out = run(cmd, timeout=3600)
             if rc != 0:
                 raise InfraError("cmake configure failed:\n" + out[-3000:])
-        rc, out = run(["ninja", "-C", bdir] + list(targets), timeout=3000)
+        rc, out = run(["ninja", "-C", bdir] + list(targets), timeout=7200)
         if rc != 0:
             raise InfraError("build of /repo working tree failed (variant %s):\n%s" % (variant, out[-6000:]))
         log("library %s up to date (%.1fs)" % (variant, time.time() - t0))
@@ -140,7 +140,7 @@ def build_harness(name, sources=None, variant="hooks", extra=(), opt="-O1"):
         cmd += list(extra) + srcs + ["-o", exe + ".tmp", "-L" + os.path.join(bdir, "src"),
                                      "-l:libxerces-c-4.0.so", "-Wl,-rpath," + os.path.join(bdir, "src"), "-lpthread"]
         t0 = time.time()
-        rc, out = run(cmd, timeout=900)
+        rc, out = run(cmd, timeout=3600)
         if rc != 0:
             raise InfraError("harness %s does not build:\n%s" % (name, out[-6000:]))
         os.replace(exe + ".tmp", exe)
